@@ -157,6 +157,101 @@ def body_info(body):
     return bi
 
 
+# ---------------------------------------------------------------------------------------------------------------- library models
+# Iterator::try_fold / fold / for_each / try_for_each with a closure whose body is available are interpreted through a small synthetic
+# MIR body (a loop around Iterator::next that calls the closure), so that a rule sees `xs.iter().try_fold(init, |acc, x| ..)` exactly as
+# it sees the equivalent `for x in xs { .. }`.  Only used when the rule's hooks opt in to inlining that closure.
+FOLD_DECLS = {"std::iter::Iterator::try_fold": "try_fold", "std::iter::Iterator::fold": "fold",
+              "std::iter::Iterator::for_each": "for_each", "std::iter::Iterator::try_for_each": "try_for_each"}
+_SYNTH = {}
+
+
+def _other_type(cr):
+    for i, t in enumerate(cr.types):
+        if t["k"] == "other":
+            return i
+    cr.types.append({"k": "other", "s": "?"})
+    return len(cr.types) - 1
+
+
+def _option_of(cr, idx):
+    for i, t in enumerate(cr.types):
+        if t["k"] == "adt" and t.get("p") == OPTION and t.get("a") == [idx]:
+            return i
+    cr.types.append({"k": "adt", "p": OPTION, "a": [idx], "s": "std::option::Option<%s>" % cr.ty_str(idx)})
+    return len(cr.types) - 1
+
+
+def synth_fold_body(cr, kind, ckey, ret_kind, iter_is_ref):
+    """locals: 0 ret | 1 iter | 2 init (fold kinds) / closure | 3 closure | 4 acc | 5 next() result | 6 discr | 7 item | 8 &mut closure |
+    9 (acc, item) | 10 closure result | 11 ControlFlow | 12 discr | 13 residual | 14 &mut iter"""
+    ck = (kind, ckey, ret_kind, iter_is_ref, id(cr))
+    if ck in _SYNTH:
+        return _SYNTH[ck]
+    clo = cr.fns[ckey]
+    other = _other_type(cr)
+    has_acc = kind in ("try_fold", "fold")
+    trying = kind in ("try_fold", "try_for_each")
+    item_ty = clo["locals"][3] if has_acc and len(clo["locals"]) > 3 else (clo["locals"][2] if len(clo["locals"]) > 2 else other)
+    locals_ = [other] * 15
+    locals_[5] = _option_of(cr, item_ty)
+    locals_[7] = item_ty
+    locals_[10] = clo["locals"][0]
+    f_local = 3 if has_acc else 2
+    meta = {"f": "<model of Iterator::%s>" % kind, "ln": 0}
+
+    def call(decl, path, args, dest, to, via="trait", key=None):
+        t = {"t": "call", "fn": {"decl": decl, "dkey": decl, "path": path, "key": key or path, "via": via, "local": 0, "ga": []}, "args": args, "dest": dest, "to": to}
+        t.update(meta)
+        return t
+
+    def stmt(p_, rv):
+        d = {"p": p_, "rv": rv}
+        d.update(meta)
+        return d
+    blocks = []
+    # bb0: acc = init
+    b0 = [stmt(4, {"r": "use", "o": {"m": 2}})] if has_acc else [stmt(4, {"r": "agg", "ak": "tuple", "ops": []})]
+    if not iter_is_ref:
+        b0.append(stmt(14, {"r": "ref", "m": 1, "p": 1}))
+    blocks.append({"s": b0, "term": dict({"t": "goto", "to": 1}, **meta)})
+    # bb1: next
+    blocks.append({"s": [], "term": call("std::iter::Iterator::next", "std::iter::Iterator::next", [{"c": 1} if iter_is_ref else {"c": 14}], 5, 2)})
+    # bb2: switch on Some/None
+    blocks.append({"s": [stmt(6, {"r": "discr", "p": 5})], "term": dict({"t": "switch", "d": {"m": 6}, "cases": [[0, 3], [1, 4]], "else": 9, "dty": other}, **meta)})
+    # bb3: exhausted -> from_output(acc)
+    blocks.append({"s": [], "term": call("model::from_output", "model::from_output", [{"m": 4}], 0, 8, via="direct")})
+    # bb4: call the closure
+    args_op = [{"m": 8}, {"m": 9}]
+    pre = [stmt(7, {"r": "use", "o": {"m": [5, [["dc", 1, "Some"], ["f", 0, "0"]]]}}), stmt(8, {"r": "ref", "m": 1, "p": f_local})]
+    if has_acc:
+        pre.append(stmt(9, {"r": "agg", "ak": "tuple", "ops": [{"m": 4}, {"m": 7}]}))
+    else:
+        pre.append(stmt(9, {"r": "use", "o": {"m": 7}}))        # one parameter: passed as it is (the interpreter untuples only when needed)
+    blocks.append({"s": pre, "term": call("std::ops::FnMut::call_mut", "std::ops::FnMut::call_mut", args_op, 10, 5)})
+    if trying:
+        # bb5: branch on the closure's result
+        blocks.append({"s": [], "term": call("std::ops::Try::branch", "std::ops::Try::branch", [{"m": 10}], 11, 6)})
+        blocks.append({"s": [stmt(12, {"r": "discr", "p": 11})], "term": dict({"t": "switch", "d": {"m": 12}, "cases": [[0, 7], [1, 10]], "else": 9, "dty": other}, **meta)})
+        # bb7: continue with the new accumulator
+        blocks.append({"s": [stmt(4, {"r": "use", "o": {"m": [11, [["dc", 0, "Continue"], ["f", 0, "0"]]]}})], "term": dict({"t": "goto", "to": 1}, **meta)})
+    else:
+        blocks.append({"s": [stmt(4, {"r": "use", "o": {"m": 10}})] if has_acc else [], "term": dict({"t": "goto", "to": 1}, **meta)})
+        blocks.append({"s": [], "term": dict({"t": "goto", "to": 1}, **meta)})
+        blocks.append({"s": [], "term": dict({"t": "goto", "to": 1}, **meta)})
+    # bb8: return
+    blocks.append({"s": [], "term": dict({"t": "return"}, **meta)})
+    # bb9: unreachable
+    blocks.append({"s": [], "term": dict({"t": "unreachable"}, **meta)})
+    # bb10: break -> from_residual
+    blocks.append({"s": [stmt(13, {"r": "use", "o": {"m": [11, [["dc", 1, "Break"], ["f", 0, "0"]]]}})],
+                   "term": call("std::ops::FromResidual::from_residual", "std::ops::FromResidual::from_residual", [{"m": 13}], 0, 8)})
+    body = {"key": "model::%s<%s>" % (kind, ckey), "path": "model::%s" % kind, "kind": "fn", "file": "<model>", "line": 0, "hi": 0, "vis": "", "argc": 3 if has_acc else 2,
+            "locals": locals_, "names": [["acc", 4], ["item", 7]], "blocks": blocks, "promoted": [], "ret_kind": ret_kind, "closure": ckey}
+    _SYNTH[ck] = body
+    return body
+
+
 class Frame:
     __slots__ = ("fkey", "body", "bb", "locals", "ret_place", "ret_to", "prefix", "depth", "promoted_of", "post")
 
@@ -800,10 +895,42 @@ class AI:
         ty, _ = M.place_ty(self.cr, None, p, frame.body)
         return ty
 
+    def fold_model(self, st, frame, term, callee, args, to):
+        kind = FOLD_DECLS.get(M.norm_path(callee.get("decl", "")))
+        if kind is None or to is None or not args or len(st.frames) >= self.max_depth:
+            return None
+        fv = self.resolve(st, args[-1])
+        if fv[0] == "ref":
+            fv = self.resolve(st, self.read_at(st, fv[1], fv[2]))
+        if fv[0] != "closure" or fv[1] not in self.cr.fns or not self.hooks.inline(self, st, fv[1], self.cr.fns[fv[1]]):
+            return None
+        want = 3 if kind in ("try_fold", "fold") else 2
+        if len(args) != want:
+            return None
+        dty, _ = M.place_ty(self.cr, None, term["dest"], frame.body)
+        ret_kind = "result" if dty is not None and dty.adt_path() == RESULT else "option" if dty is not None and dty.adt_path() == OPTION else "plain"
+        ity = self.operand_ty(frame, term["args"][0])
+        body = synth_fold_body(self.cr, kind, fv[1], ret_kind, bool(ity is not None and ity.kind == "ref"))
+        nf = Frame(body["key"], body, "%s%s:%d>" % (frame.prefix, short(frame.fkey), frame.bb), len(st.frames))
+        for i, v in enumerate(args):
+            nf.locals[i + 1] = v
+        nf.ret_place = term["dest"]
+        nf.ret_to = to
+        st.frames.append(nf)
+        return [st]
+
     def model_call(self, st, frame, term, callee, args):
         """Built-in models of a few std functions. -> None | list of (state, value)"""
         decl = M.norm_path(callee.get("decl", ""))
         path = M.norm_path(callee.get("path", ""))
+        if decl == "model::from_output" and args:
+            rk = frame.body.get("ret_kind")
+            v = args[0]
+            if rk == "result":
+                return [(st, ("enum", RESULT, 0, (v,)))]
+            if rk == "option":
+                return [(st, ("enum", OPTION, 1, (v,)))]
+            return [(st, v)]
         if decl == "std::ops::Try::branch" and args:
             ty = self.operand_ty(frame, term["args"][0])
             alts = self.fork_enum(st, args[0], ty)
@@ -1046,6 +1173,9 @@ class AI:
                 if s3 is not None:
                     outs.append(s3)
             return outs
+        fm = self.fold_model(st, frame, term, callee, args, to)
+        if fm is not None:
+            return fm
         # indirect calls through a known closure / fn value
         key = callee.get("key")
         via = callee.get("via")
